@@ -27,7 +27,7 @@ def overlap(b, q):
 class Check(CheckBase):
     pid = "C14"
     title = "R-tree intersection = brute force"
-    bounds = {"quick": {"boxes": "N = 0, 1, 2 boxes; all coordinates unbounded symbolic reals with x1<=x2, y1<=y2 (zero-width/height allowed)", "inductive step": "a single node holding 1..3 symbolic boxes with stub children of arbitrary extent (lemmas A, B); a failed lemma is lifted to an end-to-end counterexample before it is reported",
+    bounds = {"quick": {"boxes": "N = 0, 1, 2 boxes; all coordinates unbounded symbolic reals with x1<=x2, y1<=y2 (zero-width/height allowed); 8 (thorough: also 12) boxes pinned in a geometric row (a tree n - 1 levels deep) with a symbolic query", "inductive step": "a single node holding 1..3 symbolic boxes with stub children of arbitrary extent (lemmas A, B); a failed lemma is lifted to an end-to-end counterexample before it is reported",
                         "query": "symbolic box, x1<=x2, y1<=y2"},
               "thorough": {"boxes": "end-to-end N <= 2; inductive step on nodes holding up to 4 symbolic boxes", "query": "as quick"}}
     outside = ["N above the bound", "binary64 rounding of the mean centre (floats are modelled as exact reals)", "non-finite coordinates",
@@ -42,6 +42,11 @@ class Check(CheckBase):
         ns = [0, 1, 2]
         cs = [{"label": "N%d" % n, "n": n, "split_depth": 10 if n >= 2 else None} for n in ns]
         cs += [{"label": "N%d/after-another-index" % n, "n": n, "prior": True, "split_depth": 10 if n >= 2 else None} for n in (1, 2)]
+        # deep trees: the boxes are pinned in a geometric row (box k at 10^k, unit size), so every level of the tree sheds exactly
+        # one box and the tree is n - 1 levels deep; the query box stays symbolic.  A specialisation of the end-to-end statement
+        # that reaches depths the general case (N <= 2) and the single-node step lemmas cannot, e.g. a limit on the depth.
+        for n in ((8,) if tier == "quick" else (8, 12)):
+            cs.append({"label": "N%d/deep-row" % n, "n": n, "pinned": "row", "split_depth": 6})
         ks = (1, 2, 3) if tier == "quick" else (1, 2, 3, 4)
         for k in ks:
             cs.append({"label": "step/A/N%d" % k, "n": k, "step": "A", "split_depth": 8 if k >= 3 else None})
@@ -66,6 +71,9 @@ class Check(CheckBase):
             b = [run.real("b%d_%s" % (i, k)) for k in ("x1", "y1", "x2", "y2")]
             run.assume(b[0] <= b[2])
             run.assume(b[1] <= b[3])
+            if case.get("pinned") == "row":
+                for c_, v_ in zip(b, (10 ** i, 10 ** i, 10 ** i + 1, 10 ** i + 1)):
+                    run.assume(c_ == v_)
             boxes.append((i, tuple(b)))
         q = [run.real("q_%s" % k) for k in ("x1", "y1", "x2", "y2")]
         run.assume(q[0] <= q[2])
